@@ -95,13 +95,14 @@ Definition alloc_inits : list (string * list string) :=  [
    ("Input", ["id = next_operation_id()"; "name = name"; "party = party"; "doc = doc"; "child = None"; "source_ref = SourceRef.back_frame()"; "super().__init__(child)"]); 
    ("Literal", ["id = next_operation_id()"; "value = value"; "source_ref = source_ref"; "child = None"; "super().__init__(child)"])].
 
-Definition cleared : list string := ["PARTIES"; "INPUTS"; "LITERALS"].
+Definition cleared : list string := ["PARTIES"; "INPUTS"; "LITERALS"; "FUNCTIONS"].
 
 Definition src_nada_dsl_to_nada_mir : list string :=  [
    "new_outputs = []"; 
    "PARTIES.clear()"; 
    "INPUTS.clear()"; 
    "LITERALS.clear()"; 
+   "FUNCTIONS.clear()"; 
    "operations: Dict[int, Dict] = {}"; 
    "for output in outputs: ;     timer.start(f'nada_dsl.compiler_frontend.nada_dsl_to_nada_mir.{output.name}.process_operation') ;     out_operation_id = output.child.child.id ;     extra_fns = traverse_and_process_operations(out_operation_id, operations, FUNCTIONS) ;     FUNCTIONS.update(extra_fns) ;     timer.stop(f'nada_dsl.compiler_frontend.nada_dsl_to_nada_mir.{output.name}.process_operation') ;     party = output.party ;     PARTIES[party.name] = party ;     new_outputs.append({'operation_id': out_operation_id, 'name': output.name, 'party': party.name, 'type': AST_OPERATIONS[out_operation_id].ty, 'source_ref_index': output.source_ref.to_index()})"; 
    "return {'functions': to_mir_function_list(FUNCTIONS), 'parties': to_party_list(PARTIES), 'inputs': to_input_list(INPUTS), 'literals': to_literal_list(LITERALS), 'outputs': new_outputs, 'operations': operations, 'source_files': SourceRef.get_sources(), 'source_refs': SourceRef.get_refs()}"].
